@@ -135,6 +135,7 @@ t("localsplus_same_names_split_differs_rev", "def outer():\n    x = 1\n    z = 2
 t("big_tuple_mixed_300", "x = (" + ", ".join("b'k%d', 'k%d', %d, %d.5" % (i, i, i, i) for i in range(75)) + ")")
 t("big_consts_mixed_300", "def g():\n    return [" + ", ".join(("b'c%d'" if i % 3 == 0 else "'c%d'" if i % 3 == 1 else "%d") % i for i in range(300)) + ", a]\nx = g()")
 t("set_unorderable_members", "x = a in {1j, -1j, 2j}\ny = a in {(None, 0), (0, None)}\nz = a in {None, 0, '0', 0.5, (0,), b'0'}", lo=(3, 2))
+t("const_int_min_folded", "x = -9223372036854775807 - 1\ny = -2147483647 - 1\nz = 9223372036854775807 + 0\nw = (-9223372036854775807 - 1, 2147483647 + 1, -2147483648, -9223372036854775808)")
 t("const_equal_distinct", "x = (0.0, -0.0, 1, 1.0, True, (1, 2), (1.0, 2.0), 0, False, 0j)")
 
 # ---- functions --------------------------------------------------------------
